@@ -13,6 +13,8 @@ class Stream:
     nontrivial(case, out) -> hashable key or None."""
     name = 'stream'
     prelude = ''
+    case_timeout = 120     # seconds per implementation call (SIGALRM); a time-out is an error outcome of that case
+    mem_limit_gb = 8       # address-space limit of the worker while it runs this stream's impl (None = unlimited; e2e streams spawn subprocesses)
     shard = 400
     model = True          # False: oracle-only stream (no Coq evaluation)
     exhaustive = False
@@ -34,14 +36,44 @@ def _short(x, n=2500):
     return x if len(t) <= n else t[:n] + ' ...[truncated, %d chars]' % len(t)
 
 
+class _CaseTimeout(Exception):
+    pass
+
+
+def _alarm(signum, frame):
+    raise _CaseTimeout()
+
+
 def _work(args):
+    import signal, resource
     modname, sname, case = args
     mod = importlib.import_module(modname)
     st = [s for s in mod.STREAMS if s.name == sname][0]
+    old_limit = None
+    try:
+        if st.mem_limit_gb and multiprocessing.current_process().name != 'MainProcess':
+            old_limit = resource.getrlimit(resource.RLIMIT_AS)
+            lim = int(st.mem_limit_gb * 2 ** 30)
+            resource.setrlimit(resource.RLIMIT_AS, (lim, old_limit[1]))
+    except Exception:
+        old_limit = None
+    signal.signal(signal.SIGALRM, _alarm)
+    signal.alarm(int(st.case_timeout))
     try:
         out = st.impl(case)
+    except _CaseTimeout:
+        out = dict(err='HARNESS:Timeout after %ss' % st.case_timeout)
+    except MemoryError:
+        out = dict(err='HARNESS:MemoryError (more than %s GB)' % st.mem_limit_gb)
     except Exception as e:           # the adapter itself failed: report as error kind (breaks correspondence)
         out = dict(err='HARNESS:' + type(e).__name__ + ':' + str(e)[:200])
+    finally:
+        signal.alarm(0)
+        if old_limit is not None:
+            try:
+                resource.setrlimit(resource.RLIMIT_AS, old_limit)
+            except Exception:
+                pass
     try:
         viol = st.oracle(case, out)
     except Exception as e:
@@ -69,7 +101,9 @@ def run_stream(mod, st, rep, tier, seed, pool, extra_round=0):
         return dict(name=st.name, evaluated=0, disagreements=0)
     args = [(mod.__name__, st.name, c) for c in cases]
     if st.parallel and pool is not None and len(cases) > 8:
-        res = pool.map(_work, args, chunksize=max(1, len(args) // (4 * common.NCPU)))
+        # a worker killed from outside (OOM) would make Pool.map wait forever: bound the wait
+        budget = max(300, int(len(args) * st.case_timeout / common.NCPU) + 120)
+        res = pool.map_async(_work, args, chunksize=max(1, len(args) // (4 * common.NCPU))).get(timeout=budget)
     else:
         res = [_work(a) for a in args]
     kf = common.known_findings()
@@ -140,6 +174,12 @@ def run_property(mod, tier, seed):
         for st in mod.STREAMS:
             try:
                 info = run_stream(mod, st, rep, tier, seed, pool)
+            except multiprocessing.TimeoutError:
+                pool.terminate()
+                pool = multiprocessing.get_context('fork').Pool(common.NCPU)
+                info = dict(name=st.name, evaluated=0, disagreements=0, error='implementation runs did not finish within the time budget')
+                rep.add_violation('correspondence-broken', '[%s] the implementation did not finish on the generated cases within the time budget (hang, or a worker was killed)' % st.name,
+                                  dict(stream=st.name, correspondence=mod.ID + '/' + st.name), no_input=True)
             except Exception as e:
                 info = dict(name=st.name, evaluated=0, disagreements=0, error=traceback.format_exc()[-1500:])
                 rep.add_violation('correspondence-broken', '[%s] stream failed: %s' % (st.name, traceback.format_exc()[-600:]),
@@ -156,13 +196,16 @@ def run_property(mod, tier, seed):
                 for st in mod.STREAMS:
                     try:
                         run_stream(mod, st, rep, tier, seed, pool, extra_round=r)
+                    except multiprocessing.TimeoutError:
+                        pool.terminate()
+                        pool = multiprocessing.get_context('fork').Pool(common.NCPU)
                     except Exception:
                         pass
                 if any(not v['no_input'] for v in rep.violations):
                     break
             rep.notes.append('proof or correspondence broken: oracle search extended by up to %d rounds' % rounds)
     finally:
-        pool.close()
+        pool.terminate()
         pool.join()
     if not pr.get('ok'):
         what = 'proof obligations of %s not discharged: %s %s %s' % (mod.ID, pr.get('undischarged'), pr.get('forbidden'), (pr.get('log') or '')[-400:])
